@@ -10,6 +10,7 @@ import (
 	"github.com/openfga/language/pkg/go/transformer"
 
 	"verif/core"
+	"verif/ref"
 )
 
 // ZSTEPS is a debugging aid: VERIF_FRAG (Go-quoted), VERIF_CTX -> step counts of cold and warm parses per size.
@@ -29,6 +30,40 @@ func init() {
 			d1 := time.Since(t0)
 			b := c08Call(f)
 			fmt.Fprintf(os.Stderr, "n=%d cold steps=%d (%v, hang=%v) warm steps=%d err=%v\n", n, a.steps, d1, a.hang, b.steps, a.err != nil)
+		}
+		ctx.Eval(1)
+		ctx.Trans(1)
+		ctx.State("x")
+		ctx.State("y")
+		ctx.Nontrivial("a")
+		ctx.Nontrivial("b")
+	}})
+}
+
+// ZC16 is a debugging aid: renders the named look-alike merge set (VERIF_TAG substring) under every style and prints the
+// reference verdict and the implementation's errors.
+func init() {
+	core.Register(&core.Check{ID: "ZC16", Workers: 1, Rule: "debug", Run: func(ctx *core.Ctx) {
+		for _, fs := range c16MergeSets() {
+			if !strings.Contains(fs.Tag, os.Getenv("VERIF_TAG")) {
+				continue
+			}
+			for si, st := range uniformStyles() {
+				files := renderFiles(fs.Files, st, nil)
+				w := ref.MergeRef(toMFiles(fs.Files, []int{0, 1}), "1.2")
+				fmt.Fprintf(os.Stderr, "== %s style %d %v\nref: malformed=%v conflicts=%v\n", fs.Tag, si, st, w.Malformed, w.Conflicts)
+				var mfs []transformer.ModuleFile
+				for _, f := range files {
+					mfs = append(mfs, transformer.ModuleFile{Name: f.spec.Name, Contents: f.text})
+				}
+				m, err := transformer.TransformModuleFilesToModel(mfs, "1.2")
+				fmt.Fprintf(os.Stderr, "impl: %v %v\n", m != nil, err)
+				if si == 0 || (st != nil && st["rnl"] == 1) {
+					for _, f := range files {
+						fmt.Fprintf(os.Stderr, "--- %s\n%s\n", f.spec.Name, f.text)
+					}
+				}
+			}
 		}
 		ctx.Eval(1)
 		ctx.Trans(1)
